@@ -19,7 +19,7 @@ VFX = os.environ.get("VERIF_VFX", "/verif/.cache/vfx-target/release/vfx")
 
 
 # zero-argument `&self` observers of dependency / crate types: modelled as uninterpreted functions of the receiver
-PURE_GETTERS = {"to_be_bytes", "to_le_bytes", "to_bits", "to_bytes", "size", "is_zero", "is_empty", "degree", "is_identity", "is_on_curve", "is_torsion_free", "is_small_order", "is_prime_order", "is_some", "is_none",
+PURE_GETTERS = {"to_be_bytes", "to_le_bytes", "to_bits", "to_bytes", "size", "is_zero", "is_empty", "degree", "is_identity", "is_on_curve", "is_torsion_free", "is_small_order", "is_prime_order", "is_some", "is_none", "index",
                 "max_degree", "constraints", "unwrap"}
 
 
@@ -59,6 +59,83 @@ class VArr:
 
     def __repr__(self):
         return f"{self.kind}{self.items}"
+
+
+class _ViewItems:
+    """live window [lo, hi) onto the items of a base array (a Rust slice borrowed from a Vec / array)"""
+
+    def __init__(self, base, lo, hi):
+        self.base, self.lo, self.hi = base, lo, hi
+
+    def __len__(self):
+        return self.hi - self.lo
+
+    def _ix(self, i):
+        n = len(self)
+        if i < 0:
+            i += n
+        if not (0 <= i < n):
+            raise IndexError(i)
+        return self.lo + i
+
+    def __getitem__(self, i):
+        if isinstance(i, slice):
+            return [self.base.items[self.lo + k] for k in range(*i.indices(len(self)))]
+        return self.base.items[self._ix(i)]
+
+    def __setitem__(self, i, v):
+        if isinstance(i, slice):
+            ks = list(range(*i.indices(len(self))))
+            v = list(v)
+            if len(ks) != len(v):
+                raise OutsideFragment("resizing assignment through a slice view")
+            for k, x in zip(ks, v):
+                self.base.items[self.lo + k] = x
+            return
+        self.base.items[self._ix(i)] = v
+
+    def __iter__(self):
+        return iter([self.base.items[k] for k in range(self.lo, self.hi)])
+
+    def __add__(self, o):
+        return list(self) + list(o)
+
+    def __radd__(self, o):
+        return list(o) + list(self)
+
+    def __eq__(self, o):
+        return list(self) == list(o)
+
+    def reverse(self):
+        vals = list(self)[::-1]
+        self[:] = vals
+
+    def append(self, x):
+        raise OutsideFragment("push onto a slice view")
+
+    def extend(self, x):
+        raise OutsideFragment("extend of a slice view")
+
+    def pop(self):
+        raise OutsideFragment("pop from a slice view")
+
+
+class VView(VArr):
+    """`&mut a[lo..hi]` / `&a[lo..hi]` with concrete bounds: reads and writes go to the base array"""
+
+    def __init__(self, base, lo, hi):
+        while isinstance(base, VView):          # a view of a view: compose offsets
+            lo, hi, base = base.vlo + lo, base.vlo + hi, base.vbase
+        self.vbase, self.vlo, self.vhi = base, lo, hi
+        self.kind = "slice"
+
+    @property
+    def items(self):
+        return _ViewItems(self.vbase, self.vlo, self.vhi)
+
+    @items.setter
+    def items(self, v):
+        raise OutsideFragment("replacing the items of a slice view")
 
 
 class VTuple:
@@ -129,6 +206,22 @@ class VRefCell:
 
     def __init__(self, arr, idx):
         self.arr, self.idx = arr, idx
+
+
+def _deep_copy(v):
+    if isinstance(v, VArr):
+        return VArr([_deep_copy(x) for x in v.items], v.kind)
+    if isinstance(v, VStruct):
+        return VStruct(v.name, {k: _deep_copy(x) for k, x in v.fields.items()})
+    if isinstance(v, VTuple):
+        return VTuple([_deep_copy(x) for x in v.items])
+    return v
+
+
+def _deref(v):
+    while isinstance(v, VRefCell):
+        v = v.arr.items[v.idx]
+    return v
 
 
 class VSymEnum:
@@ -430,6 +523,14 @@ class Interp:
                     except KeyError:
                         pass
             self.havocked.append({"span": st.get("span"), "why": str(e)[:160]})
+            # a havocked statement may still LEAVE the function: `?`, `return`, panicking macros.  Those exits are part of the
+            # function's behaviour; they are recorded (coarsely: kinds + names bound) so that the contract has to list them
+            kinds = sorted(k for k in ("try", "return") if _has_kind(st, (k,)))
+            if _has_macro(st, ("assert", "assert_eq", "assert_ne", "panic", "unreachable", "todo", "unimplemented")):
+                kinds.append("panic")
+            if kinds:
+                bound = sorted(_pat_names(st["pat"])) if st["k"] == "let" else []
+                self.ctx.exits.append(("unmodelled_exit", "+".join(kinds), ",".join(bound)))
             return UNIT
 
     def havoc_value(self, name):
@@ -585,6 +686,14 @@ class Interp:
             nv = self.arith(op[0], cur, r, e)
             self.assign(e["l"], nv, env)
             return UNIT
+        if op in ("<<=", ">>=", "|=", "&=", "^="):
+            cur = _deref(self.expr(e["l"], env))
+            r = _deref(self.expr(e["r"], env))
+            if not (isinstance(cur, int) and isinstance(r, int)):
+                self.fail(e, f"{op} on symbolic integers")
+            nv = {"<<=": lambda: (cur << r) & 0xFFFFFFFFFFFFFFFF, ">>=": lambda: cur >> r, "|=": lambda: cur | r, "&=": lambda: cur & r, "^=": lambda: cur ^ r}[op]()
+            self.assign(e["l"], nv, env)
+            return UNIT
         l = self.expr(e["l"], env)
         if op in ("||", "&&"):
             # short-circuit semantics: the right operand is evaluated only if the left one does not decide
@@ -602,13 +711,23 @@ class Interp:
         if op in ("+", "-", "*"):
             return self.arith(op, l, r, e)
         if op in ("==", "!="):
+            l, r = _deref(l), _deref(r)
             if isinstance(l, int) and isinstance(r, int):
                 return (l == r) if op == "==" else (l != r)
+            if isinstance(l, (Poly, int)) and isinstance(r, (Poly, int)) and not as_poly(l).vars() and not as_poly(r).vars():
+                same = (as_poly(l) - as_poly(r)).is_zero()
+                return same if op == "==" else not same
             return VOpaque("ne" if op == "!=" else "eq", [l, r])
         if op in ("<", "<=", ">", ">=") and isinstance(l, int) and isinstance(r, int):
             return {"<": l < r, "<=": l <= r, ">": l > r, ">=": l >= r}[op]
         if op in ("<", "<=", ">", ">="):
             return VOpaque({"<": "lt", "<=": "le", ">": "gt", ">=": "ge"}[op], [l, r])
+        if op in ("<<", ">>", "^") and isinstance(l, int) and isinstance(r, int) and not isinstance(l, bool):
+            if op == "^":
+                return l ^ r
+            if not (0 <= r < 64):
+                raise OutsideFragment("shift amount out of range (would panic / wrap)")
+            return (l << r) & 0xFFFFFFFFFFFFFFFF if op == "<<" else l >> r
         if op in ("/", "%") and isinstance(l, int) and isinstance(r, int) and r != 0:
             return l // r if op == "/" else l % r
         if op in ("/", "%"):
@@ -622,6 +741,7 @@ class Interp:
         self.fail(e, f"binary operator {op}")
 
     def arith(self, op, l, r, node):
+        l, r = _deref(l), _deref(r)
         if isinstance(l, int) and isinstance(r, int) and not isinstance(l, bool):
             return {"+": l + r, "-": l - r, "*": l * r}[op]
         a, b = as_poly(l), as_poly(r)
@@ -645,6 +765,7 @@ class Interp:
             if isinstance(base, VArr) and isinstance(idx, int):
                 if not (0 <= idx < len(base.items)):
                     raise OutsideFragment(f"index {idx} out of bounds (len {len(base.items)}) in assignment")
+                self.check_lazy_hazard(base, idx)
                 base.items[idx] = val
                 return
             self.fail(target, "indexed assignment on non-array")
@@ -653,6 +774,7 @@ class Interp:
         if k == "unary" and target["op"] == "*":
             inner = self.expr(target["e"], env) if target["e"]["k"] == "path" else None
             if isinstance(inner, VRefCell):
+                self.check_lazy_hazard(inner.arr, inner.idx)
                 inner.arr.items[inner.idx] = val
                 return
             if isinstance(inner, VStream):
@@ -684,6 +806,8 @@ class Interp:
     def e_index(self, e, env):
         b = self.expr(e["e"], env)
         i = self.expr(e["i"], env)
+        if isinstance(b, VStruct) and len(b.fields) == 1 and (b.name + "[]") not in self.contracts:
+            (b,) = b.fields.values()      # Deref to the single collection field (Polynomial -> [BlsScalar])
         if isinstance(b, VArr):
             if isinstance(i, int):
                 if not (0 <= i < len(b.items)):
@@ -692,9 +816,12 @@ class Interp:
             if isinstance(i, VRange):
                 lo = 0 if i.lo is None else i.lo
                 hi = len(b.items) if i.hi is None else i.hi
+                if not (isinstance(lo, int) and isinstance(hi, int)):
+                    # a window with symbolic bounds onto a concrete array: only meaningful as the target of a bulk write
+                    return VOpaque("window", [b, lo, hi])
                 if not (0 <= lo <= hi <= len(b.items)):
-                    raise OutsideFragment("slice out of bounds")
-                return VArr(b.items[lo:hi], "slice")
+                    raise OutsideFragment("slice out of bounds (would panic)")
+                return VView(b, lo, hi)
         if isinstance(b, Sym) and (b.path.split(".")[-1] + "[]") in self.contracts:
             return self.contracts[b.path.split(".")[-1] + "[]"](self, b, [i])
         if isinstance(b, Sym):
@@ -746,6 +873,8 @@ class Interp:
             if not isinstance(it.lo, int) or not isinstance(it.hi, int):
                 self.fail(e, "range with symbolic bounds")
             items = list(range(it.lo, it.hi))
+        elif isinstance(it, VArr) and e["iter"]["k"] == "ref" and e["iter"].get("mut"):
+            items = [VRefCell(it, i) for i in range(len(it.items))]      # `for x in &mut v`: x is a mutable reference to the cell
         elif isinstance(it, (VIter, VArr)):
             items = it.items
         elif isinstance(it, VSymIter):
@@ -779,16 +908,47 @@ class Interp:
             self.fail(e, "for over non-constant iterator")
         if len(items) > 4096:
             self.fail(e, "loop too long to unroll")
-        for x in items:
-            env2 = dict_child(env)
-            self.bind(e["pat"], x, env2)
+        try:
+            for x in items:
+                for cell in self._cells(x):
+                    getattr(self, "pending_tests", {}).pop((id(cell.arr), cell.idx), None)
+                env2 = dict_child(env)
+                self.bind(e["pat"], x, env2)
+                try:
+                    self.block(e["body"], env2)
+                except Continue:
+                    continue
+                except Break:
+                    break
+        finally:
+            if getattr(self, "pending_tests", None):
+                self.pending_tests.clear()
+        return UNIT
+
+    def cond_value(self, c, node):
+        """a branch condition as a concrete bool: symbolic atoms fork the path (decide)"""
+        if isinstance(c, bool):
+            return c
+        if isinstance(c, (VOpaque, Sym)):
+            return self.decide(c)
+        self.fail(node, "condition is not boolean")
+
+    def e_while(self, e, env):
+        """`while cond { body }` with a condition that becomes concrete per path; at most 4096 iterations"""
+        n = 0
+        while True:
+            c = self.cond_value(self.expr(e["cond"], env), e)
+            if not c:
+                return UNIT
+            n += 1
+            if n > 4096:
+                self.fail(e, "while loop does not terminate within 4096 iterations")
             try:
-                self.block(e["body"], env2)
+                self.block(e["body"], env)
             except Continue:
                 continue
             except Break:
-                break
-        return UNIT
+                return UNIT
 
     def e_if(self, e, env):
         if e["cond"]["k"] == "letcond":
@@ -825,17 +985,44 @@ class Interp:
         # general case: path splitting.  The run is repeated once per combination of decisions (driver in run_unit).
         if not isinstance(c, (VOpaque, Sym)):
             self.fail(e, "branch on a non-boolean symbolic value")
+        take = self.decide(c)
+        if take:
+            return self.block(e["then"], env)
+        if e["else"] is not None:
+            return self.expr(e["else"], env)
+        return UNIT
+
+    def check_lazy_hazard(self, arr, idx):
+        """Rust's iterator adapters are lazy; `filter` here tests all elements up front.  The two coincide unless a cell is
+        written after its (eager) test and before its (lazy) turn: such a write is outside the fragment."""
+        if (id(arr), idx) in getattr(self, "pending_tests", {}):
+            raise OutsideFragment("a cell is written before the lazily evaluated filter reaches it (eager/lazy order differs)")
+
+    def _cells(self, x):
+        if isinstance(x, VRefCell):
+            return [x]
+        if isinstance(x, VTuple):
+            return [c for y in x.items for c in self._cells(y)]
+        return []
+
+    def decide(self, c):
+        """path splitting on a symbolic condition: the decision of the current path (the driver re-runs the unit once per
+        combination).  A condition already decided on this path (same canonical text) keeps its decision."""
+        if isinstance(c, VOpaque) and c.name == "ne" and len(c.args) == 2:
+            return not self.decide(VOpaque("eq", list(c.args)))      # one atom per fact: no infeasible eq/ne combinations
+        if isinstance(c, VOpaque) and c.name == "not" and len(c.args) == 1 and isinstance(c.args[0], (VOpaque, Sym)):
+            return not self.decide(c.args[0])
+        key = canon(c)
+        for c0, t0 in self.path_conds:
+            if canon(c0) == key:
+                return t0
         k = self.dec_idx
         self.dec_idx += 1
         if k >= len(self.decisions):
             raise NeedDecision()
         take = self.decisions[k]
         self.path_conds.append((c, take))
-        if take:
-            return self.block(e["then"], env)
-        if e["else"] is not None:
-            return self.expr(e["else"], env)
-        return UNIT
+        return take
 
     def e_match(self, e, env):
         v = self.expr(e["e"], env)
@@ -908,6 +1095,22 @@ class Interp:
             self.fail(e, "if-let shape")
         if not isinstance(v, (VOpaque, Sym)):
             self.fail(e, "if-let on a non-symbolic value")
+        if isinstance(v, VOpaque) and v.name in ("Some", "None") and len(v.args) == (1 if v.name == "Some" else 0):
+            # a CONCRETE option (instances): ordinary if-let
+            if v.name == "None":
+                return UNIT
+            env2 = dict_child(env)
+            self.bind(pat["elems"][0], v.args[0], env2)
+            return self.block(e["then"], env2)
+        st_ = e["then"]["stmts"]
+        simple = bool(st_) and st_[-1]["k"] == "expr" and st_[-1]["expr"]["k"] == "return" and not _has_kind(st_[:-1], ("if", "match", "return", "for", "while", "loop"))
+        if not simple:
+            # general shape: fork the path on `is_some(v)`
+            if not self.decide(VOpaque("is_some", [v])):
+                return UNIT
+            env2 = dict_child(env)
+            self.bind(pat["elems"][0], VOpaque("some_of", [v]), env2)
+            return self.block(e["then"], env2)
         env2 = dict_child(env)
         self.bind(pat["elems"][0], VOpaque("some_of", [v]), env2)
         if _has_mutation(e["then"]):
@@ -942,6 +1145,14 @@ class Interp:
             return v[2]
         self.fail(e, "`?` on unsupported value")
 
+    def e_const_block(self, e, env):
+        """`const { assert!(..) }`: evaluated at compile time by rustc; here it is executed like a block (the asserted condition
+        must be concretely true for the instance, otherwise the crate would not compile for it)"""
+        return self.block(e["block"], env)
+
+    def e___value__(self, e, env):
+        return e["v"]
+
     def e_closure(self, e, env):
         return VClosure(e["params"], e["body"], env)
 
@@ -957,7 +1168,7 @@ class Interp:
         v = self.expr(e["e"], env)
         n = self.expr(e["len"], env)
         if isinstance(n, int) and n <= 4096:
-            return VArr([v] * n, "vec")
+            return VArr([_deep_copy(v) for _ in range(n)], "vec")      # n CLONES (mutable element values must not alias)
         if isinstance(v, Poly) and v.is_zero():
             # `vec![BlsScalar::zero(); n]` with symbolic n: the zero coefficient vector (of that length)
             return VCoeffVec(C(0), 0, 0, known_len=False)
@@ -974,6 +1185,15 @@ class Interp:
             return UNIT
         if e["path"] == "vec":
             raise OutsideFragment("vec! macro (havocked in trace-only mode)")
+        if e["path"] == "assert" and e.get("args"):
+            c = self.expr(e["args"][0], env)
+            if c is True:
+                return UNIT
+            if c is False:
+                self.ctx.exits.append(("panic", "assert!(" + e["tokens"][:80] + ") is false"))
+                return UNIT
+            self.ctx.exits.append(("panic_unless", c))
+            return UNIT
         self.fail(e, f"macro {e['path']}!")
 
     def e_struct(self, e, env):
@@ -1025,14 +1245,21 @@ class Interp:
             self.fail(e, "BlsScalar::from of non-constant")
         if name in ("Vec::with_capacity", "Vec::new"):
             return VArr([], "vec")
+        if name in ("cmp::min", "cmp::max", "core::cmp::min", "core::cmp::max", "std::cmp::min", "std::cmp::max") and len(args) == 2 \
+                and all(isinstance(x, int) and not isinstance(x, bool) for x in args):
+            return min(args) if name.endswith("min") else max(args)
         if name == "bool::from":
             return args[0]
+        if name in ("usize::from", "u64::from", "u32::from", "u8::from", "u128::from", "i64::from") and len(args) == 1 and isinstance(args[0], (bool, int)):
+            return int(args[0])
         if segs[-1] == "from_reader" and len(segs) >= 2:
             # dusk-bytes: `T::from_reader(&mut buf)?` consumes T::SIZE bytes from the front of the reader (ASSUMED contract):
             # the k-th read of a function is the opaque value read(k, T)
             k = sum(1 for ev in self.ctx.log if ev and ev[0] == "read")
             self.ctx.event("read", k, segs[-2])
             return ("fallible", f"read {k} ({segs[-2]}) fails => Err", VOpaque("read", [k, segs[-2]]))
+        if name == "Some" and len(args) == 1 and "Some" not in self.contracts:
+            return VOpaque("Some", [args[0]])
         if name == "Ok":
             return VOk(args[0])
         if name == "Err":
@@ -1088,6 +1315,39 @@ class Interp:
         finally:
             self.inline_depth -= 1
 
+    def inline_method(self, recv, m, args, type_name=None):
+        """a method of a crate type that has no contract: its real body (same file, `Type::method`) is executed with `self`
+        bound to the receiver value (inline fallback, recorded in the calls list)"""
+        if not getattr(self, "file_root", None) or self.inline_depth >= 6:
+            return NotImplemented
+        root, rel, _ty = self.file_root
+        ast = None
+        tn = type_name or recv.name
+        for cand in (f"{tn}::{m}", f"alloc::{tn}::{m}"):
+            try:
+                ast = dump_ast(root, rel, cand)
+                break
+            except AstLost:
+                continue
+        if ast is None:
+            return NotImplemented
+        params = ast["sig"]["params"]
+        if not params or not params[0].get("recv") or len(params) - 1 != len(args):
+            return NotImplemented
+        env2 = ChildEnv(None)
+        dict.__setitem__(env2, "self", recv)
+        for p, a in zip(params[1:], args):
+            self.bind(p["pat"], a, env2)
+        self.inline_depth += 1
+        self.calls.append(f"INLINED-BODY:{tn}::{m}")
+        try:
+            try:
+                return self.block(ast["body"], env2)
+            except Return as r:
+                return r.v
+        finally:
+            self.inline_depth -= 1
+
     def e_mcall(self, e, env):
         m = e["m"]
         recv = self.expr(e["recv"], env)
@@ -1099,6 +1359,14 @@ class Interp:
                     self.calls.append(key)
                     return r
         # ---- scalar methods
+        if m == "invert" and not args and isinstance(_deref(recv), (Poly, Sym)):
+            # field inverse as an uninterpreted symbol of its (normalised) argument: inv(p); `inv(p) * p == 1` is NOT known to
+            # the normal form -- contracts state results in the product form (see kernels.batch_inversion)
+            p0 = as_poly(_deref(recv))
+            return VOpaque("ct_some", [Sym(f"inv({canon(p0)})")])
+        if m == "unwrap" and not args and isinstance(recv, VOpaque) and recv.name == "ct_some":
+            self.ctx.unwraps = getattr(self.ctx, "unwraps", []) + [canon(recv.args[0])]
+            return recv.args[0]
         if m == "square" and not args:
             p = as_poly(recv)
             return p * p
@@ -1119,9 +1387,15 @@ class Interp:
                     return VSymIter(recv)
                 if isinstance(recv, VOpaque):
                     return VSymIter(Sym(recv.canon()))
+                if isinstance(recv, VStruct) and len(recv.fields) == 1:
+                    (inner,) = recv.fields.values()      # Deref / IntoIterator of a newtype over a collection (Polynomial)
+                    if isinstance(inner, VArr):
+                        return VIter([VRefCell(inner, i) for i in range(len(inner.items))]) if m == "iter_mut" else VIter(list(inner.items))
                 self.fail(e, f".{m}() on symbolic collection")
             if m == "to_vec" and isinstance(recv, VArr):
-                return VArr(recv.items, "vec")
+                return VArr(list(recv.items), "vec")
+            if m == "clone" and isinstance(recv, (VArr, VStruct, VTuple)):
+                return _deep_copy(recv)
             if m in ("copied", "cloned") and isinstance(recv, VIter):
                 return recv
             return recv
@@ -1151,6 +1425,8 @@ class Interp:
             return recv
         if m == "zip":
             a = args[0]
+            if isinstance(a, VView) and recv.items and isinstance(recv.items[0], VRefCell):
+                a = VIter([VRefCell(a, i) for i in range(len(a.items))])      # `iter_mut().zip(right)` with right: &mut [T]
             if isinstance(a, VArr):
                 a = VIter(a.items)
             if isinstance(recv, VIter) and isinstance(a, VIter):
@@ -1180,10 +1456,22 @@ class Interp:
             self.ctx.log = saved
             return VOpaque(m, [recv.sym, body])
         if m in ("any", "all") and isinstance(recv, (VIter, VArr)) and isinstance(args[0], VClosure):
-            rs = [self.call_closure(args[0], [x]) for x in recv.items]
-            if all(isinstance(r, bool) for r in rs):
-                return any(rs) if m == "any" else all(rs)
-            return VOpaque(m + "_of", [VArr(rs, "vec")])
+            # short-circuit semantics element by element; a symbolic predicate value forks the path
+            for x in recv.items:
+                r = self.call_closure(args[0], [x])
+                if isinstance(r, VOpaque) and r.name == "ne":
+                    r = not self.decide(VOpaque("eq", list(r.args)))
+                elif isinstance(r, VOpaque) and r.name == "not" and isinstance(r.args[0], (VOpaque, Sym)):
+                    r = not self.decide(r.args[0])
+                elif isinstance(r, (VOpaque, Sym)):
+                    r = self.decide(r)
+                if not isinstance(r, bool):
+                    self.fail(e, "any/all predicate is not boolean")
+                if m == "any" and r:
+                    return True
+                if m == "all" and not r:
+                    return False
+            return m == "all"
         if m == "collect" and isinstance(recv, VSymIter):
             return VOpaque("collected", [recv.sym])
         if m == "map" and isinstance(recv, VIter) and isinstance(args[0], VClosure):
@@ -1269,16 +1557,123 @@ class Interp:
             recv.kind = "bytes"
             recv.items.append(VOpaque("section", [a]))
             return UNIT
+        if m == "copy_from_slice" and isinstance(recv, VOpaque) and recv.name == "window" and isinstance(recv.args[0], VArr):
+            arr, lo, hi = recv.args
+            src = args[0]
+            for i in range(len(arr.items)):
+                arr.items[i] = VOpaque("spliced", [arr.items[i], lo, hi, src, i])      # element i after `arr[lo..hi] = src`
+            return UNIT
         if m == "copy_from_slice" and isinstance(recv, VArr) and isinstance(args[0], VArr):
             if len(recv.items) != len(args[0].items):
                 raise OutsideFragment(f"copy_from_slice length mismatch {len(recv.items)} vs {len(args[0].items)} (would panic)")
             recv.items[:] = args[0].items
+            return UNIT
+        # ---- adapters over collections of KNOWN length (instances): real iterator semantics, element by element
+        if m == "filter" and isinstance(recv, (VIter, VArr)) and isinstance(args[0], VClosure):
+            kept = []
+            for x in recv.items:
+                for cell in self._cells(x):
+                    self.pending_tests = getattr(self, "pending_tests", {})
+                    self.pending_tests[(id(cell.arr), cell.idx)] = True
+                c = self.call_closure(args[0], [x])
+                if isinstance(c, VOpaque) and c.name == "not" and isinstance(c.args[0], (VOpaque, Sym)):
+                    take = not self.decide(c.args[0])
+                elif isinstance(c, VOpaque) and c.name == "ne":
+                    take = not self.decide(VOpaque("eq", list(c.args)))
+                elif isinstance(c, (VOpaque, Sym)):
+                    take = self.decide(c)
+                elif isinstance(c, bool):
+                    take = c
+                else:
+                    self.fail(e, "filter predicate is not boolean")
+                if take:
+                    kept.append(x)
+            return VIter(kept)
+        if m == "rev" and isinstance(recv, VArr):
+            return VIter(list(reversed(recv.items)))
+        if m == "skip" and isinstance(recv, (VIter, VArr)) and isinstance(args[0], int):
+            return VIter(recv.items[args[0]:])
+        if m == "take" and isinstance(recv, (VIter, VArr)) and isinstance(args[0], int):
+            return VIter(recv.items[:args[0]])
+        if m == "chain" and isinstance(recv, (VIter, VArr)):
+            a = args[0]
+            if isinstance(a, (VIter, VArr)):
+                return VIter(recv.items + a.items)
+            if isinstance(a, VOpaque) and a.name == "Some" and len(a.args) == 1:
+                return VIter(recv.items + [a.args[0]])
+            self.fail(e, "chain with a symbolic iterator")
+        if m == "enumerate" and isinstance(recv, (VIter, VArr)):
+            return VIter([VTuple([i, x]) for i, x in enumerate(recv.items)])
+        if m == "pop" and isinstance(recv, VArr) and not args:
+            if not recv.items:
+                return VOpaque("None")
+            return VOpaque("Some", [recv.items.pop()])
+        if m == "resize" and isinstance(recv, VArr) and len(args) == 2 and isinstance(args[0], int):
+            if args[0] <= len(recv.items):
+                del recv.items[args[0]:]
+            else:
+                recv.items.extend([args[1]] * (args[0] - len(recv.items)))
+            return UNIT
+        if m == "clear" and isinstance(recv, VArr) and not args:
+            del recv.items[:]
+            return UNIT
+        if m == "len" and isinstance(recv, (VArr, VIter)) and not args:
+            return len(recv.items)
+        if m == "is_empty" and isinstance(recv, (VArr, VIter)) and not args:
+            return len(recv.items) == 0
+        if m in ("is_some_and", "is_none_or") and isinstance(recv, VOpaque) and recv.name in ("Some", "None") and isinstance(args[0], VClosure):
+            if recv.name == "None":
+                return m == "is_none_or"
+            return self.call_closure(args[0], [recv.args[0]])
+        if m == "reverse" and isinstance(recv, VArr) and not args:
+            recv.items.reverse()
+            return UNIT
+        if m in ("chunks_mut", "chunks", "chunks_exact", "chunks_exact_mut") and isinstance(recv, VArr) and len(args) == 1 and isinstance(args[0], int) and args[0] > 0:
+            n, k = len(recv.items), args[0]
+            ends = n - (n % k) if m.startswith("chunks_exact") else n
+            return VIter([VView(recv, i, min(i + k, ends)) for i in range(0, ends, k)])
+        if m in ("split_at_mut", "split_at") and isinstance(recv, VArr) and len(args) == 1 and isinstance(args[0], int):
+            if not (0 <= args[0] <= len(recv.items)):
+                raise OutsideFragment("split_at out of bounds (would panic)")
+            return VTuple([VView(recv, 0, args[0]), VView(recv, args[0], len(recv.items))])
+        if m == "last_mut" and isinstance(recv, VArr) and not args:
+            return VOpaque("Some", [VRefCell(recv, len(recv.items) - 1)]) if recv.items else VOpaque("None")
+        if m == "swap" and isinstance(recv, VArr) and len(args) == 2 and all(isinstance(x, int) for x in args):
+            i, j = args
+            if not (0 <= i < len(recv.items) and 0 <= j < len(recv.items)):
+                raise OutsideFragment("swap out of bounds (would panic)")
+            recv.items[i], recv.items[j] = recv.items[j], recv.items[i]
+            return UNIT
+        if m == "last" and isinstance(recv, (VArr, VIter)) and not args:
+            return VOpaque("Some", [recv.items[-1]]) if recv.items else VOpaque("None")
+        if m in ("mul_assign", "add_assign", "sub_assign") and len(args) == 1 and e["recv"]["k"] in ("path", "unary", "index"):
+            nv = self.arith({"mul_assign": "*", "add_assign": "+", "sub_assign": "-"}[m], recv, args[0], e)
+            self.assign(e["recv"], nv, env)
             return UNIT
         # ---- contracts (by method name, optionally qualified by receiver hint)
         for key in self.method_keys(e, recv, m):
             if key in self.contracts:
                 self.calls.append(key)
                 return self.contracts[key](self, recv, args)
+        if isinstance(recv, Sym) and recv.path.startswith("self.") and recv.path.count(".") == 1 and not m.startswith("is_") \
+                and m not in READONLY_METHODS and getattr(self, "trace_fields", True):
+            # an unknown (possibly mutating) method on a field of `self`: an uninterpreted EFFECT on that field, recorded in the trace
+            self.ctx.event("field_effect", recv.path, m, *[canon(x) for x in args])
+            return VOpaque(f"{recv.path}.{m}", list(args))
+        if isinstance(recv, Sym) and recv.path == "self" and getattr(self, "file_root", None) and self.file_root[2]:
+            # a helper method of the same type without a contract (typically introduced by the change under test): its real body
+            r = self.inline_method(recv, m, args, type_name=self.file_root[2].split("::")[-1])
+            if r is not NotImplemented:
+                return r
+        if isinstance(recv, VStruct):
+            r = self.inline_method(recv, m, args)
+            if r is not NotImplemented:
+                return r
+            # Deref to the single collection field (e.g. Polynomial -> [BlsScalar])
+            if len(recv.fields) == 1:
+                (inner,) = recv.fields.values()
+                e2 = dict(e, recv={"k": "__value__", "v": inner})
+                return self.e_mcall(e2, env)
         self.fail(e, f"method `.{m}()` on {type(recv).__name__} {show(recv)[:60]} (no contract)")
 
     def method_keys(self, e, recv, m):
@@ -1383,6 +1778,16 @@ def _has_mutation(node):
     return False
 
 
+def _has_macro(node, names):
+    if isinstance(node, dict):
+        if node.get("k") == "macro" and node.get("path") in names:
+            return True
+        return any(_has_macro(v, names) for v in node.values())
+    if isinstance(node, list):
+        return any(_has_macro(v, names) for v in node)
+    return False
+
+
 def _has_kind(node, kinds):
     if isinstance(node, dict):
         if node.get("k") in kinds:
@@ -1463,7 +1868,24 @@ def _split_top(s):
 
 # ------------------------------------------------------------------------------------------------ units
 
+_AST_CACHE = {}
+
+
 def dump_ast(root, rel, fn_path):
+    key = (root, rel, fn_path)
+    if key not in _AST_CACHE:
+        try:
+            _AST_CACHE[key] = ("ok", _dump_ast(root, rel, fn_path))
+        except AstLost as e:
+            _AST_CACHE[key] = ("lost", str(e))
+    kind, v = _AST_CACHE[key]
+    if kind == "lost":
+        raise AstLost(v)
+    import copy
+    return v
+
+
+def _dump_ast(root, rel, fn_path):
     p = os.path.join(root, rel)
     if not os.path.exists(p):
         raise AstLost(f"file {rel} not found")
@@ -1556,6 +1978,7 @@ def run_unit(root, unit, contracts, seed=0, perturb=None):
                 it1.bind(sp["pat"], val, env)
             args1.append(val)
         it1.capture_closure = unit.closure
+        ctx1.pcs = it1.path_conds
         try:
             try:
                 res1 = it1.block(ast["body"], env)
@@ -1580,7 +2003,7 @@ def run_unit(root, unit, contracts, seed=0, perturb=None):
             raise OutsideFragment("recursion limit")
         return res1, args1, ctx1, it1
 
-    MAX_PATHS = 64
+    MAX_PATHS = getattr(unit, "max_paths", 64)
     paths = []
     stack = [[]]
     while stack:
@@ -1599,7 +2022,11 @@ def run_unit(root, unit, contracts, seed=0, perturb=None):
         ctx2 = Ctx()
         ctx2.is_contract = True
         it2 = Interp(ctx2, contracts, consts, src_name=f"contract of {unit.name}")
-        dec = {canon(c): t for c, t in pcs}
+        dec = {}
+        for c, t in pcs:
+            dec[canon(c)] = t
+            if isinstance(c, VOpaque) and c.name == "eq" and len(c.args) == 2:
+                dec[canon(VOpaque("ne", list(c.args)))] = not t
         it2.decided = lambda key: dec.get(key)
         plist = unit.closure_params if unit.closure else unit.params
         args2 = [mk() for (_n, mk) in plist]
@@ -1633,32 +2060,28 @@ def run_unit(root, unit, contracts, seed=0, perturb=None):
                 a, b = _resolve_ite(a, pcs), _resolve_ite(b, pcs)
             ok, detail, cex = compare(a, b, seed)
             und = False
-            if not ok and (_havoc_names(a) - _havoc_names(b)):
+            if not ok and (_havoc_names(a) - _havoc_names(b)) and _shape(a) == _shape(b):
                 # the code side carries a havocked (unknown) value where the contract is exact: unknown, not a violation
                 und = True
                 detail = f"code value depends on statements outside the fragment (havoc {sorted(_havoc_names(a) - _havoc_names(b))}): {detail}"
             if not ok and pcs and not und:
                 # the path condition may make the two sides coincide: specialise for the predicates we understand
-                sub = {}
-                for c, t in pcs:
-                    if isinstance(c, VOpaque) and c.name in ("is_zero", "is_identity") and t and isinstance(c.args[0], (Sym, VOpaque, Poly)):
-                        vs = as_poly(c.args[0]).vars()
-                        if len(vs) == 1:
-                            sub[list(vs)[0]] = C(0)
-                if sub:
-                    ok, detail2, cex2 = compare(_subst(a, sub), _subst(b, sub), seed)
+                rules, used = _path_rules(pcs)
+                sub = bool(rules)
+                if rules:
+                    ok, detail2, cex2 = compare(_apply_rules(a, rules), _apply_rules(b, rules), seed)
                     if not ok:
                         detail, cex = detail2, cex2
                 if not ok:
                     # a difference is a genuine counterexample only if the path condition does not constrain its symbols
-                    a2, b2 = (_subst(a, sub), _subst(b, sub)) if sub else (a, b)
+                    a2, b2 = (_apply_rules(a, rules), _apply_rules(b, rules)) if rules else (a, b)
                     la, lb = _first_diff(a2, b2)
                     dv = _diff_vars(la, lb)
                     poly_diff = isinstance(la, (Poly, Sym)) and isinstance(lb, (Poly, Sym, int))
                     cv_ = set()
-                    for c, _t in pcs:
-                        if _is_equality(c, _t) and sub:
-                            continue      # already used as a substitution
+                    for ci, (c, _t) in enumerate(pcs):
+                        if ci in used:
+                            continue      # this equality has been applied exactly (substitution / monomial elimination)
                         if poly_diff and _is_inequality(c, _t):
                             continue      # an inequality leaves a Zariski-open set: a non-zero polynomial cannot vanish on all of it
                         cv_ |= _value_vars(c)
@@ -1667,8 +2090,10 @@ def run_unit(root, unit, contracts, seed=0, perturb=None):
                     elif dv is None or (dv & cv_):
                         und = True
                     detail = f"on the path [{pc_txt}]: {detail}"
-            if k not in worst or (worst[k][0] and not ok):
-                worst[k] = (ok, detail, cex, und)
+                    if isinstance(cex, dict):
+                        cex = dict(cex, path=[[canon(c), bool(t)] for c, t in pcs])
+            if k not in worst or (worst[k][0] and not ok) or (not worst[k][0] and worst[k][3] and not ok and not und):
+                worst[k] = (ok, detail, cex, und)      # definite failure > undecided failure > success
     definite = any((not ok) and (not und) for (ok, _d, _c, und) in worst.values())
     for k, (ok, detail, cex, und) in worst.items():
         oid = f"{unit.name}.{k}"
@@ -1681,13 +2106,97 @@ def run_unit(root, unit, contracts, seed=0, perturb=None):
         ob = {"id": oid, "unit": unit.name, "kind": "ring",
               "text": f"{unit.fn}: {k} == {show(b)[:240] if not isinstance(b, list) else '[%d items]' % len(b)}" + (f" on all {len(paths)} paths" if len(paths) > 1 else ""),
               "status": "discharged" if ok else "failed", "detail": detail, "cex": cex, "backend": "ringcheck"}
-        if not ok and cex and unit.replay and k in ("result", "msm"):
+        if not ok and cex and unit.replay and k in ("result", "msm", "v"):
             ob["recipe"] = unit.replay
         obs.append(ob)
     return obs, calls
 
 
 _STRUCT = object()
+
+
+def _path_rules(pcs):
+    """Equalities decided TRUE on the path, turned into exact rewrite rules:  x == 0  ->  x := 0;  c*m == 0 (one monomial)  ->
+    every term divisible by m vanishes (in a field a product is zero iff a factor is: the ideal generated by m);  an equation
+    that is linear in a variable with a constant coefficient  ->  that variable is solved for.  Returns (rules, indices used)."""
+    from .poly import R_BLS
+    rules, used = [], set()
+    for i, (c, t) in enumerate(pcs):
+        if not t or not isinstance(c, VOpaque):
+            continue
+        g = None
+        if c.name in ("is_zero", "is_identity") and isinstance(c.args[0], (Sym, VOpaque, Poly)):
+            g = as_poly(c.args[0])
+        elif c.name == "eq" and len(c.args) == 2 and all(isinstance(x, (Sym, Poly, int)) or (isinstance(x, VOpaque) and not x.name.startswith("havoc")) for x in c.args):
+            try:
+                g = as_poly(c.args[0]) - as_poly(c.args[1])
+            except Exception:
+                g = None
+        if g is None:
+            continue
+        if rules:
+            g = _apply_rules(g, rules)      # later equalities are read modulo the earlier ones
+        n = g.norm()
+        if not n:
+            used.add(i)
+            continue
+        if len(n) == 1:
+            (m, _c), = n.items()
+            if m == ():
+                continue        # a non-zero constant == 0: infeasible path, nothing to learn
+            if len(m) == 1:
+                rules.append(("sub", m[0][0], C(0)))
+            else:
+                rules.append(("mono", m))
+            used.add(i)
+            continue
+        # linear in some variable with constant coefficient, variable absent elsewhere
+        done = False
+        for m, cf in n.items():
+            if len(m) == 1 and m[0][1] == 1:
+                x = m[0][0]
+                if all(all(v != x for v, _e in m2) for m2 in n if m2 != m):
+                    rest = Poly({m2: c2 for m2, c2 in n.items() if m2 != m})
+                    inv = pow(cf % R_BLS, -1, R_BLS)
+                    rules.append(("sub", x, rest * C((-inv) % R_BLS)))
+                    used.add(i)
+                    done = True
+                    break
+        if done:
+            continue
+    return rules, used
+
+
+def _apply_rules(v, rules):
+    def on_poly(p):
+        p = as_poly(p)
+        for r in rules:
+            if r[0] == "sub":
+                p = p.subst({r[1]: r[2]})
+            else:
+                mono = dict(r[1])
+                p = Poly({m: c for m, c in p.norm().items() if not all(dict(m).get(x, 0) >= e for x, e in mono.items())})
+        return p
+
+    def go(x):
+        if isinstance(x, (Poly, Sym)):
+            return on_poly(x)
+        if isinstance(x, VOpaque):
+            return VOpaque(x.name, [go(y) for y in x.args])
+        if isinstance(x, VArr):
+            return VArr([go(y) for y in x.items], x.kind)
+        if isinstance(x, VTuple):
+            return VTuple([go(y) for y in x.items])
+        if isinstance(x, list):
+            return [go(y) for y in x]
+        if isinstance(x, tuple):
+            return tuple(go(y) for y in x)
+        if isinstance(x, VOk):
+            return VOk(go(x.v))
+        if isinstance(x, VStruct):
+            return VStruct(x.name, {k: go(y) for k, y in x.fields.items()})
+        return x
+    return go(v)
 
 
 def _havoc_names(v):
@@ -1778,6 +2287,10 @@ def _resolve_ite(v, pcs):
         dec[canon(c)] = t
         if isinstance(c, VOpaque) and c.name == "not":
             dec[canon(c.args[0])] = not t
+        if isinstance(c, VOpaque) and c.name == "eq" and len(c.args) == 2:
+            dec[canon(VOpaque("ne", list(c.args)))] = not t
+        if isinstance(c, (VOpaque, Sym)):
+            dec[canon(VOpaque("not", [c]))] = not t
 
     def go(x):
         if isinstance(x, VOpaque):
